@@ -157,8 +157,10 @@ Definition node_shift_run_stmt : Prop :=
 
 (* Relation to two runs of the real library at different origins: a freshly constructed node (cold_node) at origin t0 + c is the
    shifted cold node at t0 except for SyncOffset, which is 0 (not c) until Open() sets it.  SyncOffset is only read by
-   UpdateNextTime, so the two agree unless the heartbeat is configured before Open(): that is the finding `origin-hb-before-open`
-   of tools/p_C13.py (the heartbeat set to the default values before Open() is scheduled against the absolute clock).
+   UpdateNextTime, i.e. when the heartbeat is configured before Open(); since the repair of the finding `origin-hb-before-open`
+   Open() recomputes every enabled heartbeat scheduler after SetSyncOffset (resync_heartbeats; Spec/HbSpec.v hb_open_resync_stmt:
+   whatever was stored before, after Open() every heartbeat stands at the new SyncOffset + 10 s), so the stale value cannot reach
+   a frame; tools/p_C13.py keeps the former witness in its scenarios.
 
    32-bit build - documented partial, no theorem: the node-level statement holds only "within one millisecond" (statement 1: FromNow
    stores 0 instead of the sentinel 0xFFFFFFFF, i.e. arms the timer one millisecond later; statement 2 bounds the effect), so a theorem
